@@ -600,8 +600,16 @@ fn mutate(msg: &[u8], m: &Mutation) -> Vec<u8> {
         }
         Mutation::AlgOther => {
             if let Some((_, rd, _)) = offs {
-                // hmac-shaXXX -> change a digit.
-                out[rd + 9] = if out[rd + 9] == b'9' { b'8' } else { b'9' };
+                // hmac-shaXXX: name another algorithm the library knows
+                // (same key name, so a store that looks at the name only
+                // would find the key), or an unknown one.
+                let digits = out.get(rd + 9..rd + 12).map(|d| d.to_vec());
+                match digits.as_deref() {
+                    Some(b"256") => out[rd + 9..rd + 12].copy_from_slice(b"384"),
+                    Some(b"384") => out[rd + 9..rd + 12].copy_from_slice(b"512"),
+                    Some(b"512") => out[rd + 9..rd + 12].copy_from_slice(b"256"),
+                    _ => out[rd + 9] = if out[rd + 9] == b'9' { b'8' } else { b'9' },
+                }
             }
         }
         Mutation::OrigIdChange => {
